@@ -63,6 +63,11 @@ def gen_repo(rng):
     for i in range(n):
         ns = rng.choice(nss)
         short = rng.choice(["T", "Node", "Item", "Kind", "Box", "Leaf"]) + str(i)
+        if rng.random() < 0.35:
+            # names that end like the file extension does (letters of "avsc"), or are made of them
+            short = rng.choice(["Orders", "Address", "Status", "Data", "Avsc", "Casa", "Vacs", "Savvas", "C", "Deltas"]) + (str(i) if rng.random() < 0.3 else "")
+            if ((ns + "." + short) if ns else short) in names:
+                short += "x%d" % i
         if names and rng.random() < 0.3:
             # the simple name of an earlier type, in another namespace (two types that differ only there)
             other = rng.choice(names)
